@@ -1,14 +1,36 @@
 """C05 initializers (C11 6.7.9): every member gets the prescribed value, the rest is zero, static image == automatic image.
 
 E2 twin check, exhaustive inside stated bounds.
- * Type universe: shapes of depth <= 2 (arrays [1] [2] [3] [] / structs of 1-3 members incl. bit-fields, anonymous
-   struct/union members, trailing flexible array / unions of 2) whose scalar slots are filled from a fixed rotation of 17
-   scalar types (integers, _Bool, floating, object and function pointers).
+ * Type universe ("base" family): shapes of depth <= 2 (arrays [1] [2] [3] [] / structs of 1-3 members incl. bit-fields,
+   anonymous struct/union members, trailing flexible array / unions of 2) whose scalar slots are filled from a fixed
+   rotation of 17 scalar types (integers, _Bool, floating, object and function pointers).
+ * Families added by the strengthening pass (evidence key family_counts):
+   - packed: __attribute__((packed)) structs with a pointer member at EVERY offset mod 8 (char[k] prefix, k = 0..7), two
+     pointers in a row, pointers behind unaligned long / long double, arrays of packed structs of size 9/10/11 (pointer of
+     element i at i*size + k), packed structs nested in ordinary structs and unions, packed structs of three
+     scalars/bit-fields over the scalar rotation.  (The coverage guard recomputes the pointer offsets of these types and
+     fails the run when a residue mod 8 is missing.)
+   - alignas: _Alignas(2..32) on members of structs, unions and packed structs (gaps inside the object).
+   - addr: pointer elements/members reached by brace elision (char *t[2][2], struct {char *names[2]; int n;}, arrays of
+     structs of pointers, flexible arrays of pointers) and char[2][3] inside structs/arrays.
+   - In packed/alignas/addr types and for scalar pointers, one pointer atom per spelling takes EVERY address-constant
+     form of models/c05_init.PTR_ATOMS (52 forms: &g, arr+i, &arr[i], &s.m, s.arr, &(&s)->m, &m[i][j], m[i]+j, *m+j,
+     m[i], casts, "string", "string"+1, &"string"[2], f, &f, *f, **f, &*f, (T)f), at the top level, after designators
+     and at every brace-elision level; elsewhere pointer atoms rotate over the first eight forms of each list.
+   - unnamed-bitfield: structs/unions of 1-3 members with one unnamed bit-field (int :3, int :0, unsigned char :5) at
+     every position (6.7.9p9: takes no initializer); wide-bitfield: bit-fields of width 33, 40, 64.
  * For every type: EVERY initializer spelling the 6.7.9 grammar allows with <= A expression/string atoms, <= D designated
    items (paths up to 3 designators, GNU ranges), positional continuation after every designator, every brace-elision
    level, braced and string forms, overriding, short lists, trailing commas, braces around scalars.  Constraint
    violations (excess elements, ...) are never generated (the reference model is the validity filter).
- * Each case is `static T s = INIT;` and `T a = INIT;` in one function which dumps both leaf by leaf.
+ * Each case is `static T s = INIT;` and `T a = INIT;` in one function which dumps both leaf by leaf.  The generated
+   unit includes no header (glibc's <sys/cdefs.h> would define __attribute__ away for chibicc).
+ * Deterministic stack: the driver fills the 32 KiB below its stack pointer - the callee's whole frame - before EVERY
+   call of a case function, and calls every case twice, with fill bytes 0xA5 and 0x5A.  "Unmentioned bytes of an
+   automatic object are zero" therefore never depends on which functions ran before: the batch run and the single-case
+   replay artefact (same driver) observe the same thing, and a byte that equals one pattern differs from the other.
+ * Pointer leaves are dumped as (object, offset) codes; the address of (the inside of) a string literal is identified by
+   the bytes it points to.
  * Oracles: (1) static dump == automatic dump; (2) both == models/c05_init.py, judged only when gcc -O0 agrees with
    the model on every leaf of the case (otherwise oracle_disagreements, skipped).
 """
@@ -37,7 +59,7 @@ def cha(key, n): return ('arr', ('sc', key), n)
 
 def instantiate(shape, rot):
     """Fill slots in preorder from the rotations, name members a,b,c.. (unique in the whole type)."""
-    cnt = {'s': 0, 'b': 0, 'n': 0}
+    cnt = {'s': 0, 'b': 0, 'n': 0, 'w': 0}
 
     def go(s):
         k = s[0]
@@ -47,6 +69,10 @@ def instantiate(shape, rot):
         if k == 'bfslot':
             cnt['b'] += 1
             key, w = BFP[(cnt['b'] - 1 + rot) % len(BFP)]
+            return ('bf', key, w)
+        if k == 'bfwslot':
+            cnt['w'] += 1
+            key, w = BFWP[(cnt['w'] - 1 + rot) % len(BFWP)]
             return ('bf', key, w)
         if k == 'sc':
             return s
@@ -60,7 +86,7 @@ def instantiate(shape, rot):
                 name = "abcdefghijklmnopqrstuvwxyz"[cnt['n']]
                 cnt['n'] += 1
                 ms.append((name, go(m)))
-        return (k, tuple(ms))
+        return (k, tuple(ms)) + tuple(s[2:3])
     return go(shape)
 
 
@@ -133,21 +159,177 @@ def shapes_d2_flex(tier):
     return out
 
 
+# ---- families added by the strengthening pass ----------------------------------
+# BFW: bit-fields wider than 32 bits (the 64-bit store mask is a separate code path in codegen.c and parse.c)
+BFWP = [('long', 64), ('ulong', 33), ('long', 40), ('ulong', 64), ('long', 33)]
+PT = [('sc', 'pchar'), ('sc', 'pint'), ('sc', 'pvoid'), ('sc', 'pfn')]
+CH, SH, LO, LD = ('sc', 'char'), ('sc', 'short'), ('sc', 'long'), ('sc', 'ldouble')
+
+
+def stx(ms, attrs, k='st'):
+    return (k, tuple(ms), tuple(sorted(attrs)))
+
+
+def pk(*ms):
+    return stx(ms, [('packed',)])
+
+
+def shapes_packed(tier):
+    """__attribute__((packed)) structs: a pointer member at every offset mod 8 (char[k] prefix, k = 0..7), two pointers
+    in a row, pointers after unaligned wider scalars, arrays of packed structs (element sizes 9, 10, 11: the pointer of
+    element i sits at i*size + k), packed structs nested in ordinary structs/unions."""
+    q = tier == "quick"
+    out = []
+    for k in range(8):
+        for pi, P in enumerate(PT):
+            if q and pi != k % 4:
+                continue
+            out.append(pk(P, CH) if k == 0 else pk(cha('char', k), P))
+    for k in ((1, 3, 6) if q else range(1, 8)):
+        out.append(pk(cha('char', k), PT[k % 4], PT[(k + 1) % 4]))
+    out.append(pk(CH, LO, PT[0]))                       # pointer at 9
+    out.append(pk(SH, LD, PT[1], CH))                   # pointer at 18
+    out.append(pk(PT[3], CH, PT[2]))                    # 0 and 9
+    out.append(arr(pk(CH, PT[0]), 2))                   # size 9: 1, 10
+    out.append(arr(pk(PT[1], cha('char', 3)), 3))       # size 11: 0, 11, 22
+    out.append(arr(pk(SH, PT[3]), None))                # size 10: 2, 12, ..
+    out.append(st(CH, pk(CH, PT[2]), PT[0]))            # nested: 2, 16
+    out.append(st(pk(cha('char', 3), PT[1]), ('sc', 'int')))
+    out.append(un(cha('char', 3), pk(CH, PT[0])))
+    if not q:
+        out.append(arr(pk(CH, PT[2]), 3))
+        out.append(arr(pk(cha('char', 5), PT[3]), 2))
+        out.append(st(SH, arr(pk(CH, PT[1]), 2)))
+        out.append(pk(pk(CH, PT[0]), pk(SH, PT[1])))
+        out.append(pk(CH, arr(PT[0], 2)))
+        out.append(pk(cha('char', 3), arr(PT[3], 2), CH))
+    return out
+
+
+def shapes_packed_scalars():
+    """packed structs of three scalars / bit-fields from the rotation (every scalar type at an unnatural offset)."""
+    return [pk(SLOT, SLOT, SLOT), pk(SLOT, BF, SLOT), pk(cha('char', 3), SLOT, SLOT)]
+
+
+def shapes_alignas():
+    """_Alignas on members (layout with gaps; the static image and the zero fill must cover them), also inside packed
+    structs, where it is the only thing that aligns a member (gcc accepts _Alignas only when it does not reduce the
+    alignment of the member's type, so a pointer gets 8 or 16; a pointer behind an _Alignas(2) short sits at 4, 12)."""
+    A = lambda i, n: ('al', i, n)
+    return [
+        stx((CH, PT[0]), [A(1, 16)]),
+        stx((CH, CH, PT[1]), [A(1, 4)]),
+        stx((CH, ('sc', 'int'), CH), [A(1, 8), A(2, 4)]),
+        stx((('sc', 'int'), cha('char', 3), SH), [A(1, 4), A(2, 8)]),
+        stx((cha('char', 3), BF, SLOT), [A(0, 8)]),
+        stx((CH, LD, PT[3]), [A(1, 32)]),
+        stx((CH, PT[2]), [A(0, 2), A(1, 16)], k='un'),
+        stx((CH, PT[0], CH), [('packed',), A(1, 8)]),                     # 8; size 17 -> 24
+        stx((CH, PT[2], CH, PT[3]), [('packed',), A(1, 8)]),              # 8 and 17
+        stx((cha('char', 3), PT[1], SH), [('packed',), A(1, 16)]),
+        stx((CH, SH, PT[3]), [('packed',), A(1, 2)]),                     # short at 2, pointer at 4
+        arr(stx((PT[0], CH, SH), [('packed',), A(2, 2)]), 2),             # size 12: pointers at 0 and 12
+    ]
+
+
+def shapes_unnamed_bf(tier):
+    """Structs/unions of 1-3 scalar/bit-field members with ONE unnamed bit-field (`int :3;` / `int :0;`) at every
+    position: unnamed members take no initializer (6.7.9p9)."""
+    q = tier == "quick"
+    out = []
+    for k in ((2, 3) if q else (1, 2, 3)):
+        for ms in itertools.product((SLOT, BF), repeat=k):
+            if q and k == 3 and ms.count(BF) not in (0, 1):
+                continue
+            for pos in range(k + 1):
+                for key, w in ((('int', 3),) if q and pos != 1 else (('int', 3), ('int', 0), ('uchar', 5))):
+                    out.append(stx(ms, [('ubf', pos, key, w)]))
+    for pos in (0, 1, 2):
+        out.append(stx((SLOT, SLOT), [('ubf', pos, 'int', 3)], k='un'))
+    out.append(stx((SLOT, st(SLOT, SLOT)), [('ubf', 0, 'int', 7), ('ubf', 1, 'int', 0)]))
+    out.append(st(SLOT, stx((SLOT, SLOT), [('ubf', 0, 'int', 3)])))
+    out.append(arr(stx((SLOT, SLOT), [('ubf', 1, 'int', 3)]), 2))
+    out.append(stx((SLOT, arr(SLOT, None)), [('ubf', 1, 'int', 3)]))
+    return out
+
+
+def shapes_wide_bf():
+    W = ('bfwslot',)
+    return [st(W), st(W, SLOT), st(SLOT, W), st(BF, W), st(W, W), un(SLOT, W), st(W, BF, SLOT)]
+
+
+def shapes_addr(tier):
+    """Pointer members/elements reached by brace elision and through nested arrays (every address-constant form, among
+    them string literals: a string literal that meets an array of POINTERS initializes its first element, 6.7.9p14
+    applies to character arrays only), and character arrays nested three deep."""
+    PC = PT[0]
+    out = [arr(PC, 2), arr(arr(PC, 2), 2), st(arr(PC, 2), ('sc', 'int')), arr(st(PC, PC), 2), st(('sc', 'int'), arr(PC, None)),
+           st(cha('char', 3), PC), st(st(PC, CH), arr(PT[2], 2)), un(arr(PC, 2), ('sc', 'int')), arr(PT[1], None),
+           st(arr(cha('char', 3), 2), ('sc', 'int'))]
+    if tier != "quick":
+        out += [arr(arr(cha('char', 3), 2), 2), arr(st(arr(PT[2], 2)), 2), arr(PT[2], 3), arr(arr(PT[1], 2), None), st(arr(arr(PC, 2), 2)), st(arr(st(PC), 2), PT[3]),
+                st(arr(cha('uint', 2), 2), PC), arr(st(cha('char', 2), PC), 2)]
+    return out
+
+
+def packed_ptr_offsets(t, base=0, acc=None):
+    """Byte offsets of the pointer leaves of a type whose structs are all packed without _Alignas (trivial layout);
+    None when the layout is not trivial.  Used for the coverage guard 'a pointer at every offset mod 8'."""
+    acc = [] if acc is None else acc
+
+    def size(t):
+        k = t[0]
+        if k == 'sc':
+            return 16 if t[1] == 'ldouble' else M.SC[t[1]][1] // 8 if t[1] != 'bool' else 1
+        if k == 'arr':
+            e = size(t[1])
+            return None if e is None or t[2] is None else e * t[2]
+        if k == 'bf' or M.attrs(t) != (('packed',),):
+            return None
+        ss = [size(mt) for _, mt in t[1]]
+        if None in ss:
+            return None
+        return sum(ss) if k == 'st' else max(ss)
+    k = t[0]
+    if k == 'sc':
+        if M.SC[t[1]][0] == 'ptr':
+            acc.append(base)
+    elif k == 'arr':
+        e = size(t[1])
+        if e is not None:
+            for i in range(t[2] or 2):
+                packed_ptr_offsets(t[1], base + i * e, acc)
+    elif k in ('st', 'un') and M.attrs(t) == (('packed',),):
+        off = base
+        for _, mt in t[1]:
+            sz = size(mt)
+            if sz is None:
+                break
+            packed_ptr_offsets(mt, off, acc)
+            if k == 'st':
+                off += sz
+    return acc
+
+
+FAMILIES = ("base", "packed", "alignas", "unnamed-bitfield", "wide-bitfield", "addr")
+
+
 def universe(tier):
-    """[(type, static_only, bounds)] in a deterministic simplest-first order; bounds = ((atoms, designated items), ..):
-    a spelling is enumerated when it fits one of the pairs."""
+    """[(type, static_only, bounds, family, ptrbounds)] in a deterministic simplest-first order; bounds = ((atoms,
+    designated items), ..): a spelling is enumerated when it fits one of the pairs.  ptrbounds: see gen_cases_for."""
     q = tier == "quick"
     B1 = ((3, 2),) if q else ((4, 2), (3, 3))
     B2 = ((2, 1),) if q else ((2, 2), (3, 1))
+    PB = ((2, 0), (1, 1)) if q else ((3, 0), (2, 1))        # every address-constant form inside these
     out = []
     seen = set()
 
-    def add(t, so, b):
+    def add(t, so, b, fam="base", ptrb=()):
         if (t, so) not in seen:
             seen.add((t, so))
-            out.append((t, so, b))
+            out.append((t, so, b, fam, ptrb))
     for k in LP:
-        add(('sc', k), False, ((1, 0),))
+        add(('sc', k), False, ((1, 0),), "base", ((1, 0),) if M.SC[k][0] == 'ptr' else ())
     rots1 = (0, 7) if q else tuple(range(0, 17, 2))
     for r in rots1:
         for s in shapes_d1():
@@ -160,12 +342,30 @@ def universe(tier):
         add(instantiate(s, 0), False, B2)
     for s in shapes_d2_flex(tier):
         add(instantiate(s, 0), True, B2)
+    # families of the strengthening pass
+    BS = ((2, 0), (1, 1)) if q else ((2, 1),)
+    for s in shapes_packed(tier):
+        add(instantiate(s, 0), False, BS, "packed", PB)
+    for r in ((0, 5) if q else range(0, 17, 2)):
+        for s in shapes_packed_scalars():
+            add(instantiate(s, r), False, B2, "packed")
+    for s in shapes_alignas():
+        add(instantiate(s, 3), False, BS, "alignas", PB)
+    for s in shapes_unnamed_bf(tier):
+        t = instantiate(s, 0)
+        add(t, has_flex(t), ((3, 1),) if q else (B1 if t[0] != 'arr' else B2), "unnamed-bitfield")
+    for r in ((0, 3) if q else range(5)):
+        for s in shapes_wide_bf():
+            add(instantiate(s, r), False, B1, "wide-bitfield")
+    for s in shapes_addr(tier):
+        t = instantiate(s, 0)
+        add(t, has_flex(t), BS, "addr", ((3, 0), (1, 1)) if q else ((4, 0), (2, 1)))
     return out
 
 
 # ---- initializer enumeration ---------------------------------------------------
 # Immutable trees: ('a', style) | ('s', elem, len, u8) | ('l', items, tc); items = ((desig|None, tree), ...)
-# lim = (designated items left, fancy spellings left, ranges left)
+# lim = (designated items left, fancy spellings left, ranges left, explicit address-constant atoms left)
 
 def is_flex_arr(t):
     return t[0] == 'arr' and t[2] is None
@@ -225,10 +425,17 @@ def string_atoms(t, fancy):
     return out
 
 
+def ptr_atoms(t, P):
+    """Every address-constant form of the model's table for a pointer leaf (address-constant families only: P > 0)."""
+    if P > 0 and t[0] == 'sc' and M.SC[t[1]][0] == 'ptr':
+        return [('a', ('pa', j)) for j in range(len(M.PTR_ATOMS[t[1]]))]
+    return []
+
+
 def gen_direct(t, b, lim, cross=False):
     """Initializers that initialize a (sub)object of type t as a whole: yields (tree, atoms used, lim left)."""
     k = t[0]
-    D, F, R = lim
+    D, F, R, P = lim
     if b <= 0:
         return
     if k in ('sc', 'bf'):
@@ -236,11 +443,13 @@ def gen_direct(t, b, lim, cross=False):
         if cross:
             yield ('a', 'cross'), 1, lim
         if F > 0:
-            yield ('l', ((None, ('a', 'plain')),), False), 1, (D, F - 1, R)
+            yield ('l', ((None, ('a', 'plain')),), False), 1, (D, F - 1, R, P)
+        for tree in ptr_atoms(t, P):
+            yield tree, 1, (D, F, R, P - 1)
         return
     if k == 'arr' and t[1][0] == 'sc' and t[1][1] in M.CHARLIKE:
         for tree, f in string_atoms(t, F > 0):
-            yield tree, 1, (D, F - f, R)
+            yield tree, 1, (D, F - f, R, P)
     for items, used, lim2 in gen_items(t, b, lim, cross):
         yield ('l', items, False), used, lim2
 
@@ -253,7 +462,7 @@ def gen_items(root, budget, lim, cross=False):
             yield tuple(items), budget - b, lim
         if b == 0:
             return
-        D, F, R = lim
+        D, F, R, P = lim
         targets = []
         if cursor is not None:
             targets.append((None, cursor, lim))
@@ -261,7 +470,7 @@ def gen_items(root, budget, lim, cross=False):
             for d, path, nr in desigs:
                 if nr and R == 0:
                     continue
-                targets.append((d, path, (D - 1, F, R - nr)))
+                targets.append((d, path, (D - 1, F, R - nr, P)))
         for d, path, lim2 in targets:
             p = list(path)
             t = M.ty_at(root, p)
@@ -270,7 +479,7 @@ def gen_items(root, budget, lim, cross=False):
                 if level == 0:
                     cands = gen_direct(t, b, lim2, cross)
                 elif t[0] in ('sc', 'bf'):
-                    cands = [(('a', 'plain'), 1, lim2)]
+                    cands = [(('a', 'plain'), 1, lim2)] + [(tr, 1, lim2[:3] + (lim2[3] - 1,)) for tr in ptr_atoms(t, lim2[3])]
                 elif t[0] == 'arr' and t[1][0] == 'sc' and t[1][1] in M.CHARLIKE:
                     cands = [(tree, 1, lim2) for tree, f in string_atoms(t, False)]
                 else:
@@ -300,15 +509,22 @@ def ndesig(tree):
     return sum((1 if d else 0) + ndesig(x) for d, x in tree[1])
 
 
-def gen_cases_for(t, bounds):
-    """All top-level initializers for type t within `bounds`.  yields (tree, trailing-comma variant flag)."""
+def gen_cases_for(t, bounds, ptrbounds=()):
+    """All top-level initializers for type t within `bounds`.  yields (tree, trailing-comma variant flag).
+    ptrbounds: further (atoms, designated items) pairs inside which one pointer atom per spelling additionally takes
+    every address-constant form of M.PTR_ATOMS (style ('pa', j)); only spellings that contain such an atom are new."""
     for bi, (atoms, dmax) in enumerate(bounds):
-        for tree, used, lim in gen_direct(t, atoms, (dmax, 1, 1), cross=(t[0] == 'sc')):
+        for tree, used, lim in gen_direct(t, atoms, (dmax, 1, 1, 0), cross=(t[0] == 'sc')):
             if bi and any(used <= a and dmax - lim[0] <= d for a, d in bounds[:bi]):
                 continue
             yield tree, False
             if tree[0] == 'l' and used <= 1 and not has_tc(tree):
                 yield tree, True
+    for bi, (atoms, dmax) in enumerate(ptrbounds):
+        for tree, used, lim in gen_direct(t, atoms, (dmax, 1, 1, 1), cross=False):
+            if lim[3] or (bi and any(used <= a and dmax - lim[0] <= d for a, d in ptrbounds[:bi])):
+                continue
+            yield tree, False
 
 
 def has_tc(tree):
@@ -372,7 +588,9 @@ def expected(c):
     return e
 
 
-UNIT_HEAD = """int FN(gi); int FN(ga)[4]; struct GS { int k; int m; int n[2]; } FN(gs); char FN(gc)[8];
+# No system header is included in the unit: glibc's <sys/cdefs.h> defines __attribute__ away for compilers that do not
+# claim to be GCC, which would silently un-pack every packed struct of the chibicc twin.
+UNIT_HEAD = """int FN(gi); int FN(ga)[4]; struct GS { int k; int m; int n[2]; } FN(gs); char FN(gc)[8]; int FN(gm)[2][3];
 int FN(fn0)(void) { return 0; } int FN(fn1)(void) { return 1; }
 long FN(pdec)(void *);
 """
@@ -383,13 +601,19 @@ def build_unit(cases):
 
 
 def build_driver(cases):
-    d = ["#include <stdio.h>", "#include <stdlib.h>", "struct GS { int k; int m; int n[2]; };"]
+    nb = len(M.BASES)
+    d = ["#include <stdio.h>", "#include <stdlib.h>", "struct GS { int k; int m; int n[2]; };",
+         "extern char __executable_start[], _end[];"]
     for p in ("cc_", "ref_"):
-        d.append("extern int %sgi, %sga[4]; extern struct GS %sgs; extern char %sgc[8]; int %sfn0(void), %sfn1(void);" % ((p,) * 6))
-    d.append("static long pdec(char *p, char **b, long *sz) { if (!p) return 0; for (int i = 0; i < 6; i++) if (p >= b[i] && p < b[i] + sz[i]) return 1000000L * (i + 1) + (p - b[i]); return -1; }")
-    d.append("static long sizes[6] = {4, 16, 16, 8, 1, 1};")
+        d.append("extern int %sgi, %sga[4]; extern struct GS %sgs; extern char %sgc[8]; int %sfn0(void), %sfn1(void); extern int %sgm[2][3];" % ((p,) * 7))
+    # pointer leaves are dumped as (object, offset) codes; a pointer into the program image that is none of the known
+    # objects is taken as the address of (the inside of) a string literal and identified by the bytes it points to
+    d.append("static long pdec(char *p, char **b, long *sz) { if (!p) return 0; for (int i = 0; i < %d; i++) if (p >= b[i] && p < b[i] + sz[i]) return 1000000L * (i + 1) + (p - b[i]);"
+             " if (p >= __executable_start && p < _end - 8) { long h = 0; for (int i = 0; i < 8 && p[i]; i++) h = (h * 31 + (unsigned char)p[i]) %% 900001; return 9000000 + h; }"
+             " return -1; }" % nb)
+    d.append("static long sizes[%d] = {%s};" % (nb, ", ".join(str(x) for x in M.BASE_SIZES)))
     for p in ("cc_", "ref_"):
-        d.append("long %spdec(void *p) { char *b[6] = {(char*)&%sgi, (char*)%sga, (char*)&%sgs, %sgc, (char*)%sfn0, (char*)%sfn1}; return pdec(p, b, sizes); }" % ((p,) * 7))
+        d.append("long %spdec(void *p) { char *b[%d] = {(char*)&%sgi, (char*)%sga, (char*)&%sgs, %sgc, (char*)%sfn0, (char*)%sfn1, (char*)%sgm}; return pdec(p, b, sizes); }" % ((p, nb) + (p,) * 7))
     E = []
     rows = []
     for i, c in enumerate(cases):
@@ -399,29 +623,42 @@ def build_driver(cases):
         E += e
     d.append("static const long E[] = {%s};" % ",".join("%dL" % v for v in E))
     d.append("static const struct { void (*cc)(long *); void (*ref)(long *); int n, off, k; } C[] = {%s};" % ",\n".join(rows))
-    d.append(r'''
+    d.append(r"""
+/* Fills the DIRTY_N bytes below main's stack pointer - exactly the memory the next callee's frame (return address,
+   saved %rbp, locals) will occupy - with one byte value.  Every case function is called once after a fill with 0xA5 and
+   once after a fill with 0x5A, so what an automatic object's unmentioned bytes show never depends on which functions
+   ran before (batch run and single-case replay see the same stack), and a byte that happens to equal one pattern
+   differs from the other (0xA5.. read as a double/long double dumps as 0, 0x5A.. does not). */
+#define DIRTY_N 32768
+#define DIRTY(pat) __asm__ volatile("lea -%c1(%%rsp), %%rdi\n\tmov %1, %%ecx\n\tmovzbl %b0, %%eax\n\trep stosb" \
+                                    : : "q"((unsigned char)(pat)), "i"(DIRTY_N) : "rdi", "rcx", "rax", "memory", "cc")
 int main(int argc, char **argv) {
   static long oc[4096], orf[4096];
+  static const unsigned char pats[2] = {0xA5, 0x5A};
   int nc = sizeof(C) / sizeof(C[0]);
   setvbuf(stdout, 0, _IOLBF, 0);
   for (int i = argc > 1 ? atoi(argv[1]) : 0; i < nc; i++) {
     printf("@ %d\n", i);
-    for (int j = 0; j < 2 * C[i].n; j++) oc[j] = orf[j] = 0x5a5a5a5a5a5aL;
-    C[i].ref(orf);
-    C[i].cc(oc);
-    int dis = 0;
-    for (int k = 0; k < C[i].k; k++)
-      for (int j = 0; j < C[i].n; j++)
-        if (orf[k * C[i].n + j] != E[C[i].off + j]) { printf("D %d %d %d %ld %ld\n", i, k, j, E[C[i].off + j], orf[k * C[i].n + j]); dis = 1; }
-    if (dis) continue;
-    for (int k = 0; k < C[i].k; k++)
-      for (int j = 0; j < C[i].n; j++)
-        if (oc[k * C[i].n + j] != E[C[i].off + j]) printf("V %d %d %d %ld %ld\n", i, k, j, E[C[i].off + j], oc[k * C[i].n + j]);
+    for (int pass = 0; pass < 2; pass++) {
+      for (int j = 0; j < 2 * C[i].n; j++) oc[j] = orf[j] = 0x5a5a5a5a5a5aL;
+      DIRTY(pats[pass]);
+      C[i].ref(orf);
+      DIRTY(pats[pass]);
+      C[i].cc(oc);
+      int dis = 0;
+      for (int k = 0; k < C[i].k; k++)
+        for (int j = 0; j < C[i].n; j++)
+          if (orf[k * C[i].n + j] != E[C[i].off + j]) { printf("D %d %d %d %ld %ld\n", i, k, j, E[C[i].off + j], orf[k * C[i].n + j]); dis = 1; }
+      if (dis) continue;
+      for (int k = 0; k < C[i].k; k++)
+        for (int j = 0; j < C[i].n; j++)
+          if (oc[k * C[i].n + j] != E[C[i].off + j]) printf("V %d %d %d %ld %ld\n", i, k, j, E[C[i].off + j], oc[k * C[i].n + j]);
+    }
   }
   printf("END\n");
   return 0;
 }
-''')
+""")
     return "\n".join(d) + "\n"
 
 
@@ -492,7 +729,9 @@ def run_cases(chibicc, wd, name, cases):
                     _, i, k, j, e, g = line.split()
                     if live[int(i)] in crashed:
                         continue
-                    res["viol"].setdefault(live[int(i)], []).append((int(k), int(j), int(e), int(g)))
+                    rec = (int(k), int(j), int(e), int(g))
+                    if rec not in res["viol"].setdefault(live[int(i)], []):      # the two stack-pattern passes repeat static leaves
+                        res["viol"][live[int(i)]].append(rec)
                 elif line.startswith("D "):
                     f = line.split()
                     res["dis"].setdefault(live[int(f[1])], []).append(line)
@@ -546,6 +785,8 @@ def type_features(t):
         k = t[0]
         if k == 'bf':
             f.add('bitfield')
+            if t[2] > 32:
+                f.add('wide-bitfield')
         elif k == 'sc':
             kind = M.SC[t[1]][0]
             if kind == 'ptr':
@@ -563,6 +804,8 @@ def type_features(t):
             go(t[1], depth + 1, False)
         else:
             f.add('struct' if k == 'st' else 'union')
+            for a in M.attrs(t):
+                f.add({'packed': 'packed', 'al': 'alignas', 'ubf': 'unnamed-bitfield'}[a[0]])
             for n, mt in t[1]:
                 if n is None:
                     f.add('anon-' + ('struct' if mt[0] == 'st' else 'union'))
@@ -633,6 +876,8 @@ def type_reductions(t):
         yield ('sc', 'int')
         if (t[1], t[2]) != ('uint', 5):
             yield ('bf', 'uint', 5)
+        if t[2] > 32 and (t[1], t[2]) != ('long', 64):
+            yield ('bf', 'long', 64)
         return
     if k == 'arr':
         yield t[1]
@@ -644,21 +889,42 @@ def type_reductions(t):
             yield ('arr', e, t[2])
         return
     ms = t[1]
+    at = M.attrs(t)
+
+    def mk(ms2, drop=None, flat=False):
+        """Same struct/union with other members; attribute indices follow a removed member; they are given up (packed
+        is kept) when an anonymous member is flattened."""
+        at2 = []
+        for a in at:
+            if a[0] == 'packed':
+                at2.append(a)
+            elif flat:
+                continue
+            elif drop is None:
+                at2.append(a)
+            elif a[0] == 'al' and a[1] == drop:
+                continue
+            else:
+                at2.append((a[0], a[1] - 1) + a[2:] if a[1] > drop else a)
+        return (k, ms2, tuple(sorted(at2))) if at2 else (k, ms2)
+    for a in at:
+        rest = tuple(x for x in at if x != a)
+        yield (k, ms, rest) if rest else (k, ms)
+        if a[0] == 'ubf' and (a[2], a[3]) != ('int', 3):
+            yield (k, ms, tuple(sorted(rest + (('ubf', a[1], 'int', 3),))))
     for i, (n, mt) in enumerate(ms):
         if n is not None:
             yield mt if mt[0] in ('arr', 'st', 'un') else ('st', ((n, mt),))
     if len(ms) > 1:
         for i in range(len(ms)):
-            yield (k, ms[:i] + ms[i + 1:])
+            yield mk(ms[:i] + ms[i + 1:], drop=i)
     for i, (n, mt) in enumerate(ms):
         if n is None:
-            yield (k, ms[:i] + mt[1] + ms[i + 1:]) if mt[0] == k else (k, ms[:i] + (("z", mt),) + ms[i + 1:])
+            yield mk(ms[:i] + mt[1] + ms[i + 1:], flat=True) if mt[0] == k else mk(ms[:i] + (("z", mt),) + ms[i + 1:])
         for r in type_reductions(mt):
             if n is None and r[0] not in ('st', 'un'):
                 continue
-            if r[0] == 'bf' and False:
-                continue
-            yield (k, ms[:i] + ((n, r),) + ms[i + 1:])
+            yield mk(ms[:i] + ((n, r),) + ms[i + 1:])
 
 
 def tree_reductions(x):
@@ -783,7 +1049,8 @@ def work_types(args):
     import time
     os.makedirs(wd, exist_ok=True)
     summ = {"cases": 0, "judged": 0, "nontrivial": set(), "undefined": 0, "refrej": 0, "dis": 0, "leaves": 0,
-            "fails": [], "flagcount": {}, "incomplete": False, "samples": [], "invalid": 0, "dis_samples": [], "case_samples": []}
+            "fails": [], "flagcount": {}, "incomplete": False, "samples": [], "invalid": 0, "dis_samples": [], "case_samples": [],
+            "famcount": {}}
     batch = []
     bno = [0]
 
@@ -816,11 +1083,11 @@ def work_types(args):
                 summ["fails"].append((failed[i], c.ty, c.static_only, c.tree, c.tc, c.text, sorted(c.flags)))
         del batch[:]
 
-    for t, so, bounds in group:
+    for t, so, bounds, fam, ptrb in group:
         if time.time() > deadline:
             summ["incomplete"] = True
             break
-        for tree, tc in gen_cases_for(t, bounds):
+        for tree, tc in gen_cases_for(t, bounds, ptrb):
             try:
                 c = make_case(t, so, tree, tc)
             except M.Invalid as e:
@@ -834,6 +1101,7 @@ def work_types(args):
                 continue
             for fl in c.flags:
                 summ["flagcount"][fl] = summ["flagcount"].get(fl, 0) + 1
+            summ["famcount"][fam] = summ["famcount"].get(fam, 0) + 1
             batch.append((c, None))
             if len(batch) >= BATCH:
                 flush()
@@ -850,8 +1118,8 @@ def work_types(args):
 def count_types(args):
     group = args
     n = 0
-    for t, so, bounds in group:
-        for _ in gen_cases_for(t, bounds):
+    for t, so, bounds, fam, ptrb in group:
+        for _ in gen_cases_for(t, bounds, ptrb):
             n += 1
     return n
 
@@ -873,6 +1141,10 @@ exit 0
 def run(ctx):
     import time
     uni = universe(ctx.tier)
+    pk_off = set()
+    for t, so, b, fam, ptrb in uni:
+        if fam == "packed" and not so:
+            pk_off |= set(o % 8 for o in packed_ptr_offsets(t))
     # groups of types; deterministic, VERIF_SEED permutes only the order in which groups are scheduled
     groups = core.chunks(uni, 6 if ctx.tier == "quick" else 4)
     order = list(range(len(groups)))
@@ -886,6 +1158,7 @@ def run(ctx):
     results = core.pmap(work_types, args)
     tot = {"cases": 0, "judged": 0, "nontrivial": 0, "undefined": 0, "refrej": 0, "dis": 0, "leaves": 0, "invalid": 0}
     flagcount = {}
+    famcount = {}
     fails = []
     incomplete = 0
     for s in results:
@@ -893,6 +1166,8 @@ def run(ctx):
             tot[k] += s[k]
         for k, v in s["flagcount"].items():
             flagcount[k] = flagcount.get(k, 0) + v
+        for k, v in s["famcount"].items():
+            famcount[k] = famcount.get(k, 0) + v
         fails += s["fails"]
         incomplete += 1 if s["incomplete"] else 0
         for x in s["samples"] + s["dis_samples"]:
@@ -955,7 +1230,10 @@ def run(ctx):
     ctx.cover(evaluations=tot["judged"], cases_generated=tot["cases"], types=len(uni), leaves_compared=tot["leaves"],
               distinct_nontrivial=tot["nontrivial"], skipped_undefined=tot["undefined"], ref_rejected=tot["refrej"],
               oracle_disagreements=tot["dis"], failing_cases=len(fails), failure_classes=nclasses,
-              form_counts=flagcount,
+              form_counts=flagcount, family_counts=famcount,
+              packed_pointer_offsets_mod8=sorted(pk_off), address_constant_forms=sum(len(v) for v in M.PTR_ATOMS.values()),
+              stack_fill="every call of a case function is preceded by a fill of the 32 KiB below the caller's stack pointer; "
+                         "each case runs once with fill byte 0xA5 and once with 0x5A (batch run and replay artefact alike)",
               rule="one case = (type, initializer spelling) compiled as a static and an automatic object and dumped leaf by "
                    "leaf; judged when gcc -O0 accepts it and agrees with the 6.7.9 model on every leaf; non-trivial = more "
                    "than one leaf or at least one of designator/elision/override/string/range/braced-scalar used; "
@@ -966,11 +1244,26 @@ def run(ctx):
                      "from {scalar, bit-field, T[2], char[3], struct, struct with bit-field, union, anonymous struct, anonymous union}, "
                      "unions of 2, flexible arrays of scalars/structs/arrays) with (atoms, designated items) <= %s; designator path "
                      "<= 3, <= 1 range and <= 1 braced scalar/braced string per case, trailing-comma variant of every spelling with "
-                     "<= 1 atom, indices < 3 in designators of unknown-bound arrays" % (
+                     "<= 1 atom, indices < 3 in designators of unknown-bound arrays.  Added families (evidence key family_counts): "
+                     "packed = __attribute__((packed)) structs with a pointer member at every offset mod 8 (char[k] prefix, k=0..7; "
+                     "two pointers in a row; after unaligned long/long double; arrays of packed structs of size 9/10/11; nested "
+                     "in ordinary structs/unions) and packed structs of 3 scalars/bit-fields over the scalar rotation; alignas = "
+                     "_Alignas(2..32) on members of ordinary, union and packed structs; in packed/alignas/addr families and for "
+                     "scalar pointers one pointer atom per spelling takes EVERY address-constant form of models/c05_init.PTR_ATOMS "
+                     "(&g, arr+i, &arr[i], &s.m, s.arr, &(&s)->m, &m[i][j], m[i]+j, *m+j, m[i], casts, string literal, "
+                     "string literal+1, &string[2], function designators f, &f, *f, **f, &*f, cast), also at brace-elision "
+                     "levels; addr = pointer arrays/members reached by elision (char *t[2][2], struct {char *n[2]; int k;}, ..) "
+                     "and char[2][3] inside structs/arrays; unnamed-bitfield = structs/unions of 1-3 members with one unnamed "
+                     "bit-field (:3, :0, unsigned char :5) at every position; wide-bitfield = bit-fields of width 33, 40, 64" % (
                          ctx.tier, len(LP), "2" if ctx.tier == "quick" else "9",
                          "(3,2)" if ctx.tier == "quick" else "(4,2) or (3,3)", "(2,1)" if ctx.tier == "quick" else "(2,2) or (3,1)"))
     if tot["judged"] == 0 or len(flagcount) < 6:
         raise core.HarnessError("vacuous: judged=%d forms=%s" % (tot["judged"], sorted(flagcount)))
+    if pk_off != set(range(8)):
+        raise core.HarnessError("vacuous: packed family has pointers at offsets mod 8 %s only" % sorted(pk_off))
+    if not incomplete and (min(famcount.get(k, 0) for k in FAMILIES) == 0 or not flagcount.get('strlit-address')
+                           or not flagcount.get('subarray-address')):
+        raise core.HarnessError("vacuous: family counts %s, forms %s" % (famcount, sorted(flagcount)))
     if tot["dis"] + tot["refrej"] > 0.02 * tot["cases"]:
         raise core.HarnessError("model/gcc disagree or gcc rejects on %d+%d of %d cases: generator or model is wrong" %
                                 (tot["dis"], tot["refrej"], tot["cases"]))
